@@ -43,7 +43,7 @@ def spec(tier):
     }
 
 
-def _judge_matrices(dm_common, dm_group, train, df, meta, atoms, m, origin, newdata=False):
+def _judge_matrices(dm_common, dm_group, train, df, meta, atoms, m, origin, newdata=False, no_unseen=False):
     note = m.note
     if dm_common is not None:
         name = "newdata-labels-match-columns" if newdata else "common-labels-match-columns"
@@ -57,7 +57,8 @@ def _judge_matrices(dm_common, dm_group, train, df, meta, atoms, m, origin, newd
     if dm_group is not None:
         name = "newdata-labels-match-columns" if newdata else "group-labels-match-columns"
         try:
-            problems, judged = RC.check_group(dm_group, atoms, train, df, meta, note, allow_new=newdata)
+            # (the driver's own new frames are rows of the training frame: no group can be new there)
+            problems, judged = RC.check_group(dm_group, atoms, train, df, meta, note, allow_new=newdata and not no_unseen)
         except Exception as e:
             problems, judged = [f"unreadable|reading the matrix failed: {type(e).__name__}: {e}"], 1
         m.ev(name, applicable=judged > 0)
@@ -82,7 +83,8 @@ def hook_end_post(kind, matrix, new_data, result):
     if kind == "common":
         _judge_matrices(result, None, matrix.data, new_data, meta, atoms, m, "end", newdata=True)
     elif kind == "group":
-        _judge_matrices(None, result, matrix.data, new_data, meta, atoms, m, "end", newdata=True)
+        _judge_matrices(None, result, matrix.data, new_data, meta, atoms, m, "end", newdata=True,
+                        no_unseen=bool(CTX.get("no_unseen")))
 
 
 def wb_interaction_matrix(m):
@@ -151,6 +153,7 @@ def judge(case, m):
         rng = np.random.default_rng(case["frame"]["seed"] + 1)
         idx = rng.integers(0, len(df), size=int(rng.integers(1, len(df) + 3)))
         new = df.iloc[idx].reset_index(drop=True)
+        CTX["no_unseen"] = True
         for part in (dm.common, dm.group):
             if part is None:
                 continue
@@ -158,6 +161,7 @@ def judge(case, m):
                 part.evaluate_new_data(new)
             except Exception as e:
                 m.note("newdata-raised:" + type(e).__name__)
+        CTX["no_unseen"] = False
         ncat = sum(1 for a in atoms.values() if a.kind == "cat")
         m.cls("common-terms:%d" % len(case["terms"]), "group-terms:%d" % len(case.get("group", [])),
               "max-arity:%d" % max([len(t) for t in case["terms"]] + [0]), "hostile:%s" % case["frame"].get("hostile"))
